@@ -61,7 +61,20 @@ def run(ctx):
     r.ob(f.q, "digit > D", digit_cmp is not None and digit_cmp[0] == ord("0") + U64 % 10,
          "D = %r, (2^64-1) mod 10 = %d" % (chr(digit_cmp[0]) if digit_cmp and digit_cmp[0] else None, U64 % 10), f.loc(digit_cmp[1]) if digit_cmp else "")
     lim = [f.const_value(f.nodes[i]["ch"][1]) for i in astq.nodes_of(f, "BinaryOperator") if f.nodes[i]["op"] == "<=" and f.text(f.nodes[i]["ch"][0]) == "number.Natural"]
-    r.ob(f.q, "number.Natural <= S", lim == [(1 << 63) - 1], "S = %s, 2^63-1" % [hex(x) for x in lim if x], "Include/Digit.hpp:%d" % f.line)
+    # the smallest 64-bit integer is -2^63: a magnitude of exactly 2^63 is still an integer, and negating it is only defined on
+    # the unsigned member (the signed negation of INT64_MIN overflows)
+    lim_nodes = [i for i in astq.nodes_of(f, "BinaryOperator") if f.nodes[i]["op"] == "<=" and f.text(f.nodes[i]["ch"][0]) == "number.Natural"]
+    signed_neg = False
+    for i in lim_nodes:
+        up = f.parents().get(i)
+        while up is not None and f.nodes[up]["k"] != "IfStmt":
+            up = f.parents().get(up)
+        if up is not None:
+            signed_neg = signed_neg or any(f.nodes[x]["k"] == "UnaryOperator" and f.nodes[x]["op"] == "-" and "Integer" in f.text(f.nodes[x]["ch"][0]) for x in f.walk(f.nodes[up]["then"]))
+    r.ob(f.q, "number.Natural <= S", lim == [1 << 63] and not signed_neg,
+         "S = %s; want 2^63 (the magnitude of the smallest integer) with the negation done on the unsigned member%s" % ([hex(x) for x in lim if x], "" if not signed_neg else
+         " -- found a signed negation of number.Integer, which overflows for 2^63") +
+         ("" if lim == [1 << 63] else ": -9223372036854775808 is read as a real, a Value holding INT64_MIN changes its kind through Stringify and Parse"), "Include/Digit.hpp:%d" % f.line)
     ml = [d for i in astq.nodes_of(f, "DeclStmt") for d in f.nodes[i]["decls"] if d.get("n") == "max_length"]
     r.ob(f.q, "max_length", bool(ml) and f.const_value(ml[0]["init"]) == 19, "19 decimal digits always fit 64 bits (10^19 < 2^64 <= 10^20)", "Include/Digit.hpp:%d" % f.line)
     consts = sorted(set(f.const_value(f.nodes[i]["ch"][1]) for i in astq.nodes_of(f, "BinaryOperator")
